@@ -20,9 +20,11 @@ func c11Exec(sc c11Scenario, f c11Fault, hold bool, hang time.Duration) *c11Obs 
 	r := &c11Runner{sc: sc, f: f, hold: hold, hang: hang, full: hang, obs: o, nextID: 1,
 		callRes: make([]chan c11CallRes, sc.n), callGot: make([]*c11CallRes, sc.n), callID: make([]uint32, sc.n),
 		started: make([]bool, sc.n), held: make([]bool, sc.n), wrote: make([]bool, sc.n),
+		cheld: make([]bool, sc.n), cancelCh: make([]chan struct{}, sc.n), cancelled: make([]bool, sc.n),
 		subEv: make([]chan []byte, sc.m), subReg: make([]bool, sc.m), cbReg: make([]bool, sc.d), cb: make([]int32, sc.d)}
 	for c := range r.callRes {
 		r.callRes[c] = make(chan c11CallRes, 1)
+		r.cancelCh[c] = make(chan struct{})
 	}
 	r.st = newC11Stream(20*hang + 30*time.Second)
 	r.ep = net.NewEndPoint(r.st)
@@ -75,9 +77,14 @@ func (r *c11Runner) step(pos int, step c11Step) {
 		r.lab("LSubscribe %d", i)
 	case "start":
 		r.startCall(i)
+		if r.cancelled[i] {
+			r.lab("LCallMake %d", i)
+			r.waitCall(i, r.hang)
+			return
+		}
 		if !r.faulted || r.halfOpen() {
 			id := r.callID[i]
-			if !r.st.poll(r.hang, func() bool { return r.st.pendingWrite(id) != nil }) {
+			if !r.st.poll(r.hang, func() bool { return r.st.pendingWrite(id, net.Call) != nil }) {
 				r.abort("call %d: Write not entered", i)
 				return
 			}
@@ -93,24 +100,51 @@ func (r *c11Runner) step(pos int, step c11Step) {
 			return
 		}
 		id := r.callID[i]
-		r.st.releaseWrite(id, -1, nil)
-		if !r.st.poll(r.hang, func() bool {
-			for _, x := range r.st.sent {
-				if x == id {
-					return true
-				}
-			}
-			return false
-		}) {
+		r.st.releaseWrite(id, net.Call, -1, nil)
+		if !r.st.poll(r.hang, func() bool { return r.st.wasSent(id, net.Call) }) {
 			r.abort("call %d: Write did not return", i)
 			return
 		}
 		r.held[i] = false
 		r.wrote[i] = true
 		r.lab("LCallSend %d", i)
+	case "cancel":
+		if r.faulted || r.cancelled[i] {
+			return
+		}
+		if !r.started[i] { // cancelled before the call is made
+			r.cancelled[i] = true
+			close(r.cancelCh[i])
+			r.lab("LCancel %d", i)
+			return
+		}
+		if !r.wrote[i] || r.obs.replied[i] || r.tryCollect(i) {
+			return // only a call waiting in its select, with nothing else ready, is cancelled
+		}
+		r.cancelled[i] = true
+		close(r.cancelCh[i])
+		id := r.callID[i]
+		if !r.st.poll(r.hang, func() bool { return r.st.pendingWrite(id, net.Cancel) != nil }) {
+			r.abort("call %d: Cancel message not written", i)
+			return
+		}
+		r.cheld[i] = true
+		r.lab("LCancel %d", i)
+		r.lab("LCallSel %d BCancel", i)
+	case "fincancel":
+		if !r.cheld[i] || (r.faulted && !r.halfOpen()) {
+			return
+		}
+		r.st.releaseWrite(r.callID[i], net.Cancel, -1, nil)
+		r.cheld[i] = false
+		r.lab("LCallCancelSend %d", i)
+		r.waitCall(i, r.hang)
 	case "frame":
 		if r.faulted {
 			return
+		}
+		if step.owner == "call" && r.cancelled[step.idx] {
+			return // reply and cancel both ready: the select is a coin toss, not scripted
 		}
 		r.frame(step, pos)
 	case "readsub":
